@@ -97,7 +97,7 @@ def streams(ctx, binary, only=None):
         ss = ss[:4000]
     gen = ctx.path("streams.ndjson")
     vlib.write_ndjson(gen, ss)
-    reloc(ctx, binary, {"VERIF_GEN": gen}, "synthesised streams", test="^TestVerifRelocStreams$", minjudged=300, only=only)
+    reloc(ctx, binary, {"VERIF_GEN": gen, "VERIF_LATEMAX": "1100" if ctx.quick() else "4200"}, "synthesised streams", test="^TestVerifRelocStreams$", minjudged=300, only=only)
 
 
 def f5_reuse(ro):
